@@ -387,7 +387,16 @@ func judgeNames(w *core.W, c *nameCase) {
 	var combos []*flamego.ComboRoute
 	for i, r := range c.Routes {
 		routes = append(routes, f.Get(r, func() {}))
-		combos = append(combos, f.Combo(fmt.Sprintf("/combo%d", i)).Post(func() {}))
+		if i%2 == 0 {
+			combos = append(combos, f.Combo(fmt.Sprintf("/combo%d", i)).Post(func() {}))
+		} else {
+			// held in a variable and filled by separate statements: the value a later Name() is called on is the
+			// one Combo() returned, not the one the last verb returned
+			cb := f.Combo(fmt.Sprintf("/combo%d", i))
+			cb.Post(func() {})
+			cb.Put(func() {})
+			combos = append(combos, cb)
+		}
 	}
 	named := map[string]string{}
 	for _, nm := range c.Naming {
